@@ -40,6 +40,11 @@ Must(f, mode, inc, exc) ==
 LinesOf(pats, rel) ==
   {LinePart(pats[k]) : k \in {j \in 1..Len(pats) : HasLine(pats[j]) /\ GlobMatch(FilePart(pats[j]), rel)}}
 
+\* the same, also accepting the absolute spelling of the path (absroot = code points of the target directory + "/")
+LinesOfAbs(pats, rel, absroot) ==
+  {LinePart(pats[k]) : k \in {j \in 1..Len(pats) :
+       HasLine(pats[j]) /\ (GlobMatch(FilePart(pats[j]), rel) \/ GlobMatch(FilePart(pats[j]), absroot \o rel))}}
+
 \* a construct on `line` may be rewritten iff it is not excluded and, when lines are included, it is one of them
 Permitted(line, I, E) == (I = {} \/ line \in I) /\ line \notin E
 =============================================================================
